@@ -130,13 +130,22 @@ def position_label_uses(prog, res, modules=None, functions=None):
     sl_fn = prog.maybe_fn("skgenome.intersect.iter_slices")
     if not idx_fns or sl_fn is None:
         raise AnalysisError("anchor vanished: skgenome.intersect.idx_ranges / iter_slices")
+    work = []
     for fi in prog.functions.values():
         if modules and fi.mod not in modules:
             continue
         if functions and fi.qn not in functions:
             continue
+        work.append((fi, {}, {}, 0))
+    done = set()
+    while work:
+        fi, seed_tags, param_kinds, depth = work.pop(0)
+        key = (fi.qn, tuple(sorted(seed_tags.items())), tuple(sorted(param_kinds.items())))
+        if key in done:
+            continue
+        done.add(key)
         par = parents(fi.node)
-        tagged = {}           # name -> (kind, freely-convertible)
+        tagged = dict(seed_tags)           # name -> (kind, freely-convertible); seeds: parameters a caller binds to tagged values
         funcvars = set()
         for n in own_nodes(fi.node):
             if isinstance(n, ast.Assign) and isinstance(n.value, ast.Name) and len(n.targets) == 1 and isinstance(n.targets[0], ast.Name):
@@ -192,6 +201,41 @@ def position_label_uses(prog, res, modules=None, functions=None):
                         and isinstance(n.target, ast.Name) and n.target.id not in tagged:
                     tagged[n.target.id] = (tagged[n.iter.id][0].rstrip("S"), tagged[n.iter.id][1])
                     changed = True
+                if isinstance(n, (ast.For, ast.comprehension)) and isinstance(n.iter, ast.Call) and isinstance(n.iter.func, ast.Name) and n.iter.func.id == "enumerate" and n.iter.args \
+                        and isinstance(n.iter.args[0], ast.Name) and n.iter.args[0].id in tagged and tagged[n.iter.args[0].id][0].endswith("S") \
+                        and isinstance(n.target, ast.Tuple) and len(n.target.elts) == 2 and isinstance(n.target.elts[1], ast.Name) and n.target.elts[1].id not in tagged:
+                    src = tagged[n.iter.args[0].id]
+                    tagged[n.target.elts[1].id] = (src[0].rstrip("S"), src[1])
+                    changed = True
+        # a tagged value handed to a helper of the package: the helper's parameter carries the kind (and the containers their kinds), two levels deep
+        if depth < 2:
+            for n in own_nodes(fi.node):
+                if not isinstance(n, ast.Call):
+                    continue
+                actual = [(i, a) for i, a in enumerate(n.args)] + [(k.arg, k.value) for k in n.keywords if k.arg]
+                if not any(isinstance(a, ast.Name) and a.id in tagged for _, a in actual):
+                    continue
+                cands = [c for c in res.resolve_call(n, fi) if c not in idx_fns and c is not sl_fn and c is not fi]
+                if len(cands) != 1:
+                    continue
+                callee = cands[0]
+                ca = callee.node.args
+                names = [x.arg for x in ca.posonlyargs + ca.args]
+                if callee.is_method and names and names[0] in ("self", "cls") and isinstance(n.func, ast.Attribute):
+                    names = names[1:]
+                seeds, kinds = {}, {}
+                for pos, a in actual:
+                    pname = pos if isinstance(pos, str) else (names[pos] if pos < len(names) else None)
+                    if pname is None:
+                        continue
+                    if isinstance(a, ast.Name) and a.id in tagged:
+                        seeds[pname] = tagged[a.id]
+                    else:
+                        ck = param_kinds.get(a.id) if isinstance(a, ast.Name) and a.id in param_kinds else container_kind(fi, a, par)
+                        if ck in ("ndarray", "Series"):
+                            kinds[pname] = ck
+                if seeds:
+                    work.append((callee, seeds, kinds, depth + 1))
         for n in own_nodes(fi.node):
             # positional / label-based *methods* given a tagged value: x.take(idx), np.take(x, idx) are positional; x.reindex(idx), x.drop(idx) label-based
             if isinstance(n, ast.Call) and isinstance(n.func, ast.Attribute) and n.func.attr in ("take", "reindex", "drop"):
@@ -224,7 +268,7 @@ def position_label_uses(prog, res, modules=None, functions=None):
             elif isinstance(v, ast.Attribute) and v.attr == "index":
                 wants, idiom = "POSITION", ".index[] (position -> label)"
             else:
-                ck = container_kind(fi, v, par)
+                ck = param_kinds[v.id] if isinstance(v, ast.Name) and v.id in param_kinds and not flow.assignments(fi.node, v.id) else container_kind(fi, v, par)
                 if ck == "ndarray":
                     wants, idiom = "POSITION", "ndarray[]"
                 elif ck == "Series":
